@@ -302,6 +302,83 @@ func c10One(r *Run, snap *slog.VerifRegistry, ops []Op, kind string) {
 
 func dbgExpected(ops []Op) bool { return false }
 
+// c10SharedWriterSets: one logger is handed another logger's writer set (GetWriterBy) - afterwards adding to and
+// removing from either logger must not change where the OTHER one writes (direct oracle only)
+func c10SharedWriterSets(r *Run, snap *slog.VerifRegistry) {
+	dests := func(e *slog.Entry, lvl slog.Level) []int {
+		events = nil
+		e.LogAttrs(nil, lvl, "c10 shared sets")
+		var ws []int
+		for _, ev := range events {
+			if ev.Kind == "write" {
+				ws = append(ws, ev.W)
+			}
+		}
+		events = nil
+		sort.Ints(ws)
+		return ws
+	}
+	for _, n := range []int{1, 2, 3, 4} { // writers of the source set (its slice has spare capacity for some n)
+		for _, errClass := range []bool{false, true} {
+			resetProcess(snap)
+			slog.AddFlags(slog.LnoInterrupt)
+			lvl := slog.InfoLevel
+			if errClass {
+				lvl = slog.ErrorLevel
+			}
+			a := slog.VerifEntryOf(slog.New("c10-set-a")).SetLevel(slog.AlwaysLevel).SetColorMode(false)
+			b := slog.VerifEntryOf(slog.New("c10-set-b")).SetLevel(slog.AlwaysLevel).SetColorMode(false)
+			var src []int
+			for i := 1; i <= n; i++ {
+				src = append(src, i)
+				switch {
+				case errClass && i == 1:
+					a.SetErrorWriter(pool[i])
+				case errClass:
+					a.AddErrorWriter(pool[i])
+				case i == 1:
+					a.SetWriter(pool[i])
+				default:
+					a.AddWriter(pool[i])
+				}
+			}
+			if errClass {
+				a.SetWriter(pool[7])
+				b.SetWriter(pool[7])
+				b.SetErrorWriter(a.GetWriterBy(lvl))
+				b.AddErrorWriter(pool[5])
+				a.AddErrorWriter(pool[6])
+			} else {
+				a.SetErrorWriter(pool[7])
+				b.SetErrorWriter(pool[7])
+				b.SetWriter(a.GetWriterBy(lvl))
+				b.AddWriter(pool[5])
+				a.AddWriter(pool[6])
+			}
+			wantA := append(append([]int{}, src...), 6)
+			wantB := append(append([]int{}, src...), 5)
+			rp := map[string]any{"kind": "shared-writer-sets", "source_writers": n, "error_class": errClass}
+			r.Count(true, fmt.Sprintf("shared-writer-sets %d %v", n, errClass))
+			r.Dist["shared_writer_sets"]++
+			if ga, gb := dests(a, lvl), dests(b, lvl); fmt.Sprint(ga) != fmt.Sprint(wantA) || fmt.Sprint(gb) != fmt.Sprint(wantB) {
+				r.Fail("C10/shared-writer-set", fmt.Sprintf("logger b was given logger a's writer set %v, then b added writer 5 and a added writer 6: a writes to %v (expected %v), b writes to %v (expected %v)",
+					src, ga, wantA, gb, wantB), rp)
+				continue
+			}
+			// removing on b what b never added itself leaves a alone
+			if errClass {
+				b.RemoveErrorWriter(pool[1])
+			} else {
+				b.RemoveWriter(pool[1])
+			}
+			if ga := dests(a, lvl); fmt.Sprint(ga) != fmt.Sprint(wantA) {
+				r.Fail("C10/shared-writer-set", fmt.Sprintf("after b removed writer 1 (a member of the set it was handed), a writes to %v (expected %v)", ga, wantA), rp)
+			}
+		}
+	}
+	resetProcess(snap)
+}
+
 func containsInt(l []int, x int) bool {
 	for _, y := range l {
 		if y == x {
@@ -346,6 +423,7 @@ func runC10(r *Run) {
 			{Kind: "OPkgSetLevel", N: 3}, {Kind: "OSet", P: 0, S: lv(5)}, {Kind: "OPkgSetLevel", N: 5}, {Kind: "ONewPkg", Name: &n2},
 		}, "corpus")
 	}
+	c10SharedWriterSets(r, snap)
 	for i := r.N(300, 8000); i > 0; i-- {
 		ops := genTreeOps(r.R, TreeProfile{MaxOps: 40})
 		c10One(r, snap, ops, "random")
